@@ -703,10 +703,14 @@ type swapRequestPayload struct {
 
 func (w *Wallet) createSwapRequest(proofs cashu.Proofs, mint *walletMint) (swapRequestPayload, error) {
 	keysetCounter := w.counterForKeyset(mint.activeKeyset.Id)
+	return w.buildSwapRequest(proofs, mint, &keysetCounter)
+}
 
+// buildSwapRequest derives the outputs from the keyset counter, or uses random secrets if counter is nil
+func (w *Wallet) buildSwapRequest(proofs cashu.Proofs, mint *walletMint, counter *uint32) (swapRequestPayload, error) {
 	fees := feesForProofs(proofs, mint)
 	split := w.splitWalletTarget(proofs.Amount()-uint64(fees), mint.mintURL)
-	outputs, secrets, rs, err := w.createBlindedMessages(split, mint.activeKeyset.Id, &keysetCounter)
+	outputs, secrets, rs, err := w.createBlindedMessages(split, mint.activeKeyset.Id, counter)
 	if err != nil {
 		return swapRequestPayload{}, fmt.Errorf("createBlindedMessages: %v", err)
 	}
@@ -753,7 +757,15 @@ func (w *Wallet) swapToTrusted(proofs cashu.Proofs, mint *walletMint) (uint64, e
 	// if proofs are P2PK locked and sig all, add signatures to swap them first and then melt
 	nut10Secret, err := nut10.DeserializeSecret(proofs[0].Secret)
 	if err == nil && nut10Secret.Kind == nut10.P2PK && nut11.IsSigAll(nut10Secret) {
-		req, err := w.createSwapRequest(proofs, mint)
+		_, known := w.mints[mint.mintURL]
+		var req swapRequestPayload
+		if known {
+			req, err = w.createSwapRequest(proofs, mint)
+		} else {
+			// no keyset counter is kept for a mint that is not in the wallet's list. The outputs
+			// of this swap are melted right away, so use random secrets instead of derived ones
+			req, err = w.buildSwapRequest(proofs, mint, nil)
+		}
 		if err != nil {
 			return 0, fmt.Errorf("could not create swap request: %v", err)
 		}
@@ -765,6 +777,12 @@ func (w *Wallet) swapToTrusted(proofs cashu.Proofs, mint *walletMint) (uint64, e
 		newProofs, err := swap(mint.mintURL, req)
 		if err != nil {
 			return 0, fmt.Errorf("could not swap proofs: %v", err)
+		}
+		// the outputs of this swap were signed: move the keyset counter past them
+		if known {
+			if err := w.db.IncrementKeysetCounter(req.keyset.Id, uint32(len(req.outputs))); err != nil {
+				return 0, fmt.Errorf("error incrementing keyset counter: %v", err)
+			}
 		}
 		proofsToSwap = newProofs
 	}
